@@ -238,41 +238,47 @@ struct VaPack {
     }
 };
 
-// true `...` calls: up to 3 value-carrying arguments through generated call sites
+// true `...` calls: up to 3 value-carrying arguments through generated call sites.
+// F is any callable taking the C-level variadic arguments.
 namespace tv {
-struct Ctx { char *buf; size_t len; const char *addr, *types; const rtosc_arg_t *a; const char *t; std::array<uint8_t,4> *mid; };
-template <class... A> static size_t leaf(Ctx &c, A... a) { return rtosc_message(c.buf, c.len, c.addr, c.types, a...); }
-template <int N, class... A> struct Rec {
-    static size_t go(Ctx &c, int k, int n, A... acc)
+struct Ctx { const rtosc_arg_t *a; const char *t; std::array<uint8_t,4> *mid; };
+template <int N, class F, class... A> struct Rec {
+    static size_t go(F &f, Ctx &c, int k, int n, A... acc)
     {
-        if(k == n) return leaf(c, acc...);
+        if(k == n) return f(acc...);
         const rtosc_arg_t &x = c.a[k];
         switch(c.t[k]) {
-            case 'i': case 'c': case 'r': return Rec<N - 1, A..., int>::go(c, k + 1, n, acc..., (int)x.i);
-            case 'h': case 't': return Rec<N - 1, A..., int64_t>::go(c, k + 1, n, acc..., (int64_t)x.h);
-            case 'f': return Rec<N - 1, A..., double>::go(c, k + 1, n, acc..., (double)x.f);
-            case 'd': return Rec<N - 1, A..., double>::go(c, k + 1, n, acc..., x.d);
-            case 's': case 'S': return Rec<N - 1, A..., const char *>::go(c, k + 1, n, acc..., x.s);
+            case 'i': case 'c': case 'r': return Rec<N - 1, F, A..., int>::go(f, c, k + 1, n, acc..., (int)x.i);
+            case 'h': case 't': return Rec<N - 1, F, A..., int64_t>::go(f, c, k + 1, n, acc..., (int64_t)x.h);
+            case 'f': return Rec<N - 1, F, A..., double>::go(f, c, k + 1, n, acc..., (double)x.f);
+            case 'd': return Rec<N - 1, F, A..., double>::go(f, c, k + 1, n, acc..., x.d);
+            case 's': case 'S': return Rec<N - 1, F, A..., const char *>::go(f, c, k + 1, n, acc..., x.s);
             case 'm': memcpy(c.mid[k].data(), x.m, 4);
-                return Rec<N - 1, A..., const char *>::go(c, k + 1, n, acc..., (const char *)c.mid[k].data());
-            case 'b': return Rec<N - 1, A..., int, const char *>::go(c, k + 1, n, acc..., (int)x.b.len, (const char *)x.b.data);
+                return Rec<N - 1, F, A..., const char *>::go(f, c, k + 1, n, acc..., (const char *)c.mid[k].data());
+            case 'b': return Rec<N - 1, F, A..., int, const char *>::go(f, c, k + 1, n, acc..., (int)x.b.len, (const char *)x.b.data);
         }
         return 0;
     }
 };
-template <class... A> struct Rec<0, A...> {
-    static size_t go(Ctx &c, int k, int n, A... acc) { (void)k; (void)n; return leaf(c, acc...); }
+template <class F, class... A> struct Rec<0, F, A...> {
+    static size_t go(F &f, Ctx &, int, int, A... acc) { return f(acc...); }
 };
 } // namespace tv
 
 static const int TRUE_VARARGS_MAX = 3;
-static inline size_t call_true_varargs(char *buf, size_t len, const Msg &m, const ArgPack &ap)
+// calls f(<variadic C arguments of m>) ; m must have <= TRUE_VARARGS_MAX value-carrying args
+template <class F> static inline size_t with_true_varargs(const Msg &m, const ArgPack &ap, F f)
 {
     std::string ct;
     for(char t : m.types) if(ref::carries(t)) ct += t;
     std::array<uint8_t, 4> mid[4];
-    tv::Ctx c{buf, len, m.addr.c_str(), m.types.c_str(), ap.data(), ct.c_str(), mid};
-    return tv::Rec<TRUE_VARARGS_MAX>::go(c, 0, (int)ct.size());
+    tv::Ctx c{ap.data(), ct.c_str(), mid};
+    return tv::Rec<TRUE_VARARGS_MAX, F>::go(f, c, 0, (int)ct.size());
+}
+static inline size_t call_true_varargs(char *buf, size_t len, const Msg &m, const ArgPack &ap)
+{
+    const char *addr = m.addr.c_str(), *types = m.types.c_str();
+    return with_true_varargs(m, ap, [=](auto... a) -> size_t { return rtosc_message(buf, len, addr, types, a...); });
 }
 
 // arg-val list (no brackets possible)
@@ -292,5 +298,63 @@ struct AvPack {
         }
     }
 };
+
+
+// ---------------------------------------------------------------- bundles
+struct Elem {
+    bool is_bundle = false;
+    Msg msg;                 // when !is_bundle
+    uint64_t tt = 0;         // when is_bundle
+    std::vector<Elem> kids;
+    ref::bytes encode() const
+    {
+        if(!is_bundle) return msg.encode();
+        std::vector<ref::bytes> e;
+        for(auto &k : kids) e.push_back(k.encode());
+        return ref::bundle(tt, e);
+    }
+    int depth() const { int d = 0; for(auto &k : kids) d = std::max(d, k.depth()); return is_bundle ? d + 1 : 0; }
+    std::string render() const
+    {
+        if(!is_bundle) return "{" + msg.render() + "}";
+        std::string o = vh::fmt("#bundle(tt=%016llx)[", (unsigned long long)tt);
+        for(auto &k : kids) o += k.render();
+        return o + "]";
+    }
+};
+static inline uint64_t gen_tt(Rng &r)
+{
+    switch(r.below(5)) { case 0: return 0; case 1: return 1; case 2: return ~0ull; default: return r.next(); }
+}
+static inline Elem gen_elem(Rng &r, int maxdepth, bool force_bundle = false)
+{
+    Elem e;
+    if(force_bundle || (maxdepth > 0 && r.chance(0.3))) {
+        e.is_bundle = true;
+        e.tt = gen_tt(r);
+        int n = (int)r.range(0, maxdepth >= 3 ? 3 : 8);
+        if(r.chance(0.15)) n = 0;
+        for(int i = 0; i < n; ++i) e.kids.push_back(gen_elem(r, maxdepth - 1));
+    } else {
+        e.msg = gen_msg(r, 6, true);
+        if(e.msg.addr[0] == '#') e.msg.addr[0] = '/';   // a message, not something that spells "#bundle"
+    }
+    return e;
+}
+// rtosc_bundle with n elements (each pointer is a buffer followed by >=4 zero bytes)
+static inline size_t call_bundle(char *buf, size_t len, uint64_t tt, const std::vector<const char *> &e)
+{
+    switch(e.size()) {
+        case 0: return rtosc_bundle(buf, len, tt, 0);
+        case 1: return rtosc_bundle(buf, len, tt, 1, e[0]);
+        case 2: return rtosc_bundle(buf, len, tt, 2, e[0], e[1]);
+        case 3: return rtosc_bundle(buf, len, tt, 3, e[0], e[1], e[2]);
+        case 4: return rtosc_bundle(buf, len, tt, 4, e[0], e[1], e[2], e[3]);
+        case 5: return rtosc_bundle(buf, len, tt, 5, e[0], e[1], e[2], e[3], e[4]);
+        case 6: return rtosc_bundle(buf, len, tt, 6, e[0], e[1], e[2], e[3], e[4], e[5]);
+        case 7: return rtosc_bundle(buf, len, tt, 7, e[0], e[1], e[2], e[3], e[4], e[5], e[6]);
+        default: return rtosc_bundle(buf, len, tt, 8, e[0], e[1], e[2], e[3], e[4], e[5], e[6], e[7]);
+    }
+}
 
 } // namespace gen
